@@ -285,8 +285,8 @@ def check_selection(item, col, obj, ref, long_trace=False):
     hist = dict(plays=ref.plays, raw={str(k): v for k, v in ref.raw.items()}, counted=ref.counted[-12:])
     proto = name != "DUCB"  # the bare bandit has no protocol flag
     if proto and not long_trace:
-        c = clone(obj)
-        before = fingerprint(c)
+        before = fingerprint(obj)
+        c = pickle.loads(before)
         col.tick(1)
         try:
             c.feedback(0.0)
@@ -307,8 +307,8 @@ def check_selection(item, col, obj, ref, long_trace=False):
         return None
     arm = int(arm)
     if proto and not long_trace:
-        c = clone(obj)
-        before = fingerprint(c)
+        before = fingerprint(obj)
+        c = pickle.loads(before)
         col.tick(1)
         try:
             c.select()
@@ -406,7 +406,7 @@ def work_dfs(item, col):
             raise RuntimeError(f"fresh replay of {fb} diverged from the explored branch: {got} vs {plays}")
         validated += 1
     col.graph(stats["states"], stats["transitions"], validated, depth)
-    if stats["leaves"] and name in UCB and n >= 2 and "full_depth" not in item:
+    if stats["leaves"] and name in UCB and n == 3 and "full_depth" not in item:
         fb, plays = stats["leaves"][(2 * len(stats["leaves"])) // 3]
         col.sample(dict(selector=name, arms=n, hp=hp, feedback=[alpha[i] for i in fb], selections=list(plays)))
 
@@ -430,7 +430,6 @@ def work_long(item, col):
         if not apply_feedback(it, col, obj, ref, arm, long_reward(arm, t, n)):
             return
     col.outcome("sched_long_trace_rounds", item["rounds"])
-    col.sample(dict(selector=name, hp=hp, long_trace_last_selections=ref.plays[-20:]))
 
 
 class _Null:
